@@ -222,9 +222,11 @@ func ZZ_C09_controlPackets() {
 	before = zzCloneState(before)
 	terms := termsFromState(before)
 
-	claimed := 1 + zz.Choose("claimed_sender", 3) // leader, member 2, participant 3
+	// claimed sender: this node ITSELF (0: a packet naming the receiver as its author can only be a forgery here,
+	// the signing key is never the receiver's own), the leader (1), member 2, participant 3
+	claimed := zz.Choose("claimed_sender", 4)
 	signer := 1 + zz.Choose("signer", 3)
-	named := 1 + zz.Choose("named_participant", 3) // whom an accept/reject packet names
+	named := zz.Choose("named_participant", 4) // whom an accept/reject packet names (0 = the receiver)
 	kind := zz.Choose("packet", 4)
 	var pkt *drand.GossipPacket
 	switch kind {
@@ -250,7 +252,7 @@ func ZZ_C09_controlPackets() {
 		switch kind {
 		case 0, 1:
 			zz.Assert("accept_or_reject_only_by_the_named_member_itself", named == claimed)
-			zz.Assert("accept_or_reject_only_by_a_remaining_member", named == 1 || named == 2)
+			zz.Assert("accept_or_reject_only_by_a_remaining_member", named == 0 || named == 1 || named == 2)
 		case 2, 3:
 			zz.Assert("abort_or_execute_only_by_the_leader", claimed == 1)
 		}
